@@ -328,6 +328,10 @@ def run_stage(name, t, par, copy=True):
             return T.filter_clusters(t, quantile=par.get("quantile", 0.8))
         return T.filter_clusters(t, threshold=par["cut"])
     if name == "subtract_drift":
+        if copy and (len(t) + int(t["frame"].sum())) % 2 == 0:
+            # the in-place form: the caller's table (here: our private copy) IS the result
+            T.subtract_drift(t, inplace=True)
+            return t
         return T.subtract_drift(t)
     if name == "compute_drift":
         return T.compute_drift(t)
